@@ -57,10 +57,10 @@ func genC06X(r *rng, n int, w *bufio.Writer) {
 	spool := c06Pool("||site.com^", false)
 	for i := 0; i < n; i++ {
 		var rs, src []*rules.NetworkRule
-		for k := r.n(6); k > 0; k-- {
+		for k := nCount(r, r.n(6), 12, 6, 200); k > 0; k-- {
 			rs = append(rs, xRule(r, pool))
 		}
-		for k := r.n(3); k > 0; k-- {
+		for k := nCount(r, r.n(3), 12, 3, 100); k > 0; k-- {
 			src = append(src, xRule(r, spool))
 		}
 		var res *rules.NetworkRule
